@@ -115,27 +115,67 @@ class Run:
             raise Inconclusive("harness failed: %s" % " ".join(args))
         return p
 
-    def harness_parallel(self, binary, cmd, behaviours, label, seed_field=True, procs=8, timeout=1500, extra_args=None):
-        """Run a behaviour-list driver on slices in parallel; returns the concatenated trace path."""
+    def _run_slice(self, binary, cmd, sl, label, i, timeout, extra_args, crashes):
+        """Runs one slice of behaviours.  If the harness process dies (a panic in a goroutine of the
+        code under test kills it), the behaviour that was running is recorded in `crashes`, its partial
+        trace is dropped and the rest of the slice is run in a fresh process: one crash never hides
+        the other behaviours."""
+        out = self.path("trace-%s-%d.ndjson" % (label, i))
+        open(out, "w").close()
+        rest = list(sl)
+        rounds = 0
+        while rest:
+            rounds += 1
+            bf = self.path("beh-%s-%d-%d.json" % (label, i, rounds))
+            tf = self.path("trace-%s-%d-%d.ndjson" % (label, i, rounds))
+            json.dump({"seed": self.seed, "behaviours": rest}, open(bf, "w"))
+            e = dict(os.environ)
+            e["TMPDIR"] = self.work
+            try:
+                p = subprocess.run([binary, cmd, bf, tf] + (extra_args or []), capture_output=True, text=True, timeout=timeout, env=e, cwd=self.work)
+            except subprocess.TimeoutExpired:
+                raise Inconclusive("harness timed out: %s slice %d" % (cmd, i))
+            os.unlink(bf)
+            lines = open(tf).readlines() if os.path.exists(tf) else []
+            if os.path.exists(tf):
+                os.unlink(tf)
+            if p.returncode == 0:
+                open(out, "a").write("".join(lines))
+                self.log("harness %s[%d]: ok %s" % (cmd, i, p.stderr.strip()[-120:]))
+                break
+            # crashed: which behaviour was running?
+            last = None
+            for l in reversed(lines):
+                if '"a":"reset"' in l:
+                    last = json.loads(l).get("t")
+                    break
+            ids = [b.get("id") for b in rest]
+            if last is None or last not in ids or crashes is None or rounds > 6:
+                self.log(p.stdout[-2000:] + p.stderr[-4000:])
+                raise Inconclusive("harness %s failed (rc=%d) and the failure cannot be attributed to a behaviour" % (cmd, p.returncode))
+            k = ids.index(last)
+            keep = [l for l in lines if ('"t":"%s"' % last) not in l]
+            open(out, "a").write("".join(keep))
+            sig = [x for x in p.stderr.splitlines() if x.startswith("panic:") or x.startswith("fatal error:") or "WARNING: DATA RACE" in x]
+            crashes.append({"behaviour": rest[k], "rc": p.returncode, "signature": sig[:3], "stderr_tail": p.stderr[-3000:]})
+            self.log("harness %s[%d]: process died (rc=%d) while running behaviour %s: %s" % (cmd, i, p.returncode, last, sig[:1]))
+            rest = rest[k + 1:]
+        return out
+
+    def harness_parallel(self, binary, cmd, behaviours, label, procs=8, timeout=1500, extra_args=None, crashes=None):
+        """Run a behaviour-list driver on slices in parallel; returns the concatenated trace path.
+        crashes: list to collect behaviours during which the process died (None: a crash is inconclusive)."""
         n = max(1, min(procs, len(behaviours) // 20 + 1))
         slices = [behaviours[i::n] for i in range(n)]
-        jobs = []
-        for i, sl in enumerate(slices):
-            bf = self.path("beh-%s-%d.json" % (label, i))
-            tf = self.path("trace-%s-%d.ndjson" % (label, i))
-            json.dump({"seed": self.seed, "behaviours": sl}, open(bf, "w"))
-            jobs.append((bf, tf))
         with cf.ThreadPoolExecutor(max_workers=n) as ex:
-            futs = [ex.submit(self.harness, binary, [cmd, bf, tf] + (extra_args or []), timeout) for bf, tf in jobs]
-            for f in futs:
-                f.result()
+            futs = [ex.submit(self._run_slice, binary, cmd, sl, label, i, timeout, extra_args, crashes) for i, sl in enumerate(slices)]
+            outs = [f.result() for f in futs]
         out = self.path("trace-%s.ndjson" % label)
         with open(out, "w") as o:
-            for bf, tf in jobs:
+            for tf in outs:
                 with open(tf) as i:
                     shutil.copyfileobj(i, o)
                 os.unlink(tf)
-                os.unlink(bf)
         return out
 
     # ----------------------------------------------------------------- TLC
